@@ -397,6 +397,35 @@ def run(ctx):
 
     # ---------------- inventory (informational)
     # ---------------- R10 what one client puts into the pool-wide statement cache is not served to another
+    # ... and a client cannot reach them with a Close either: with the statement cache on, the Close of a *named statement* is answered by pgcat (the name is the
+    # client's own, the server's PGCAT_n is shared) and never forwarded - whatever the client's name map says about that name. Forwarded are only portals, the unnamed
+    # statement, and everything when the cache is off: the forward of a buffered Close is reached only over prepared_statements_enabled == false,
+    # Close::is_prepared_statement() == false or Close::anonymous() == true
+    hh13 = F.body(H) if "H" in globals() else F.body("pgcat::client::Client::handle::{closure#0}")
+    if hh13 is None:
+        r13.missing("Client::handle")
+    else:
+        hsw13 = switches(hh13)
+        cE13, _o, _ = discr_edges(hh13, r"messages::ExtendedProtocolData", "Close", switches_cache=hsw13)
+        peT, peF = field_bool_edges(hh13, "prepared_statements_enabled", hsw13)
+        ipT, ipF, _ = call_bool_edges(hh13, "pgcat::messages::Close::is_prepared_statement", switches_cache=hsw13)
+        anT, anF, _ = call_bool_edges(hh13, "pgcat::messages::Close::anonymous", switches_cache=hsw13)
+        nfw = 0
+        for (u_, v_) in sorted(cE13):
+            region = {b_ for b_ in hh13.reach([v_]) if hh13.dominates(v_, b_)}
+            for c in hh13.calls("re:BufMut::put$|BufMut::put_slice$|BytesMut::extend_from_slice$"):
+                if c.block not in region:
+                    continue
+                flds = {p_ for o in origins(hh13, c.args[0]) if o.kind in ("place", "param") for p_ in o.proj}
+                if ".buffer" not in flds:
+                    continue
+                nfw += 1
+                w = hh13.uncrossed_path([v_], [c.block], edges=set(peF) | set(ipF) | set(anT))
+                r13.check(w is None, "named-close-never-forwarded", "a buffered Close is forwarded only where the cache is off, or it names a portal or the unnamed statement",
+                          "a buffered Close can be forwarded to the server although the cache is on and it names a statement (e.g. whenever the client's own map does not hold the name): "
+                          "`Close S PGCAT_0 .. Close S PGCAT_k; Sync` from any client drops the statements every client of that connection shares - their Binds fail with 26000 until the connection is recycled",
+                          c.where(), w is not None and hh13.describe_path(w))
+        r13.check(nfw >= 1, "close-forward-site", "%d site(s) forward a buffered Close" % nfw, "the forward of a buffered Close was not found in the Sync arm")
     r10 = ctx.rule("C11-R10", "a Parse that enters the pool-wide prepared-statement cache is handed to other clients only for byte-identical statements: every field of Parse that the encoder writes to the server "
                    "(apart from the rewritten name) is part of the cache key, so a malformed twin (e.g. a negative parameter count, which the decoder accepts and the encoder writes back verbatim) cannot be cached under a well-formed statement's key", floor=1)
     gap, encf, hashf = parse_cache_key_gap(F)
